@@ -106,7 +106,24 @@ def run_ctx(sv, tier, a, b, res):
                 pass
             for index in range(0, len(p) + 1):
                 if inside_break(p, index):
-                    res.unspecified += 1
+                    # which of the two adjacent lines such an offset belongs to is not pinned down; that it is reported on one of them,
+                    # with exactly one caret line, is
+                    try:
+                        ctx, line, col = gpc(p, index)
+                        k = expected_position(p, index - 1)[0]
+                        why = None
+                        if line not in (k, k + 1):
+                            why = f'offset inside a CR LF pair reported on line {line}, expected {k} or {k + 1}'
+                        elif sum(1 for x in ctx.split('\n') if x.strip() == '^') != 1:
+                            why = 'no caret line for an offset inside a CR LF pair'
+                    except Exception as e:
+                        why = f'raised {e!r}'
+                    res.evaluations += 1
+                    if why:
+                        res.fail({'layer': 'ctx-weak', 'pattern': p, 'index': index}, {'kind': 'context', 'at_end': False, 'multiline': True, 'has_lone_cr': False, 'what': 'inside CR LF'},
+                                 f'get_pattern_context({p!r}, {index}): {why}')
+                    else:
+                        res.outcome('inside-break-weakly-ok')
                     continue
                 try:
                     with shard.deadline(5):
@@ -413,6 +430,13 @@ def replay(case):
     from .. import common
     sv = common.bind()
     res = shard.Result()
+    if case['layer'] == 'ctx-weak':
+        p, index = case['pattern'], case['index']
+        ctx, line, col = sv.util.get_pattern_context(p, index)
+        k = expected_position(p, index - 1)[0]
+        if line not in (k, k + 1) or sum(1 for x in ctx.split('\n') if x.strip() == '^') != 1:
+            return {'kind': 'context', 'what': 'inside CR LF'}, f'line {line}, context {ctx!r}'
+        return None
     if case['layer'] == 'ctx':
         p, index = case['pattern'], case['index']
         try:
